@@ -3,6 +3,7 @@ package main
 import (
 	"flag"
 	"fmt"
+	"go/types"
 	"os"
 	"path/filepath"
 	"sort"
@@ -123,6 +124,7 @@ func (eng *Engine) targets() []target {
 		}
 		out = append(out, target{fn: fn, ct: ct})
 	}
+	out = eng.closedWorldTargets(out)
 	for _, lm := range eng.cs.Lemmas {
 		if !lm.Axiom {
 			out = append(out, target{lm: lm})
@@ -245,7 +247,7 @@ func cmdVerify(eng *Engine, name string, dump bool, timeoutMs int, verbose bool)
 				}
 			}
 			if verbose || !ok {
-				fmt.Printf("   %s %-8s %-7s %s   [%s] %s\n", mark, o.Status, o.Solver, o.Name, o.Pos, o.Src)
+				fmt.Printf("   %s %-8s %-7s %5.1fs %s   [%s] %s\n", mark, o.Status, o.Solver, o.Time, o.Name, o.Pos, o.Src)
 			}
 		}
 		n := 0
@@ -269,4 +271,126 @@ func cmdVerify(eng *Engine, name string, dump bool, timeoutMs int, verbose bool)
 		return 1
 	}
 	return rc
+}
+
+// closedWorldTargets: for every interface contract marked closedworld, every type of the module implementing the
+// interface gets its method verified against the interface contract (in addition to its own contract, if any).
+// The interface must not be implementable outside its package (an unexported method, or a method mentioning an
+// unexported type of the package).
+func (eng *Engine) closedWorldTargets(out []target) []target {
+	var keys []string
+	for k, ct := range eng.cs.Contracts {
+		if ct.Kind == "iface" && ct.ClosedWorld {
+			keys = append(keys, k)
+		}
+	}
+	sort.Strings(keys)
+	for _, k := range keys {
+		ict := eng.cs.Contracts[k]
+		rest := strings.TrimPrefix(k, "iface::"+ict.Pkg+".")
+		dot := strings.LastIndex(rest, ".")
+		if dot < 0 {
+			eng.cs.Errors = append(eng.cs.Errors, fmt.Sprintf("%s: closedworld: bad key", k))
+			continue
+		}
+		iname, mname := rest[:dot], rest[dot+1:]
+		pkg := eng.pkgByPath(ict.Pkg)
+		if pkg == nil {
+			continue
+		}
+		o := pkg.Scope().Lookup(iname)
+		if o == nil {
+			eng.cs.Errors = append(eng.cs.Errors, fmt.Sprintf("%s: closedworld: no such interface", k))
+			continue
+		}
+		it, ok := o.Type().Underlying().(*types.Interface)
+		if !ok || !sealedInterface(it, pkg) {
+			eng.cs.Errors = append(eng.cs.Errors, fmt.Sprintf("%s: closedworld: the interface can be implemented outside its package", k))
+			continue
+		}
+		for _, p := range eng.prog.AllPackages() {
+			if p.Pkg == nil || !strings.HasPrefix(p.Pkg.Path(), modulePath) {
+				continue
+			}
+			names := p.Pkg.Scope().Names()
+			for _, n := range names {
+				tn, ok := p.Pkg.Scope().Lookup(n).(*types.TypeName)
+				if !ok || tn.IsAlias() {
+					continue
+				}
+				if _, isI := tn.Type().Underlying().(*types.Interface); isI {
+					continue
+				}
+				var T types.Type = tn.Type()
+				if !types.Implements(T, it) {
+					T = types.NewPointer(tn.Type())
+					if !types.Implements(T, it) {
+						continue
+					}
+				}
+				sel := eng.prog.MethodSets.MethodSet(T).Lookup(pkg, mname)
+				if sel == nil {
+					continue
+				}
+				fn := eng.prog.MethodValue(sel)
+				if fn == nil || len(fn.Blocks) == 0 {
+					continue
+				}
+				key := ict.Pkg + "::" + funcKey(fn)
+				var ct *Contract
+				if own := eng.cs.Contracts[key]; own != nil && eng.funcsByKey[key] == fn {
+					if own.Implements != "" {
+						continue // already a target, checked against the interface contract there
+					}
+					// replace the plain target by one that also checks the interface contract
+					cp := *own
+					cp.Implements = rest
+					ct = &cp
+					for i := range out {
+						if out[i].fn == fn {
+							out = append(out[:i], out[i+1:]...)
+							break
+						}
+					}
+				} else {
+					ct = &Contract{Kind: "func", Pkg: ict.Pkg, Key: funcKey(fn), Props: ict.Props, Loops: map[int]*LoopSpec{}, Implements: rest, File: ict.File, Line: ict.Line, AtCalls: map[string][]*Clause{}}
+				}
+				out = append(out, target{fn: fn, ct: ct})
+			}
+		}
+	}
+	return out
+}
+
+func sealedInterface(it *types.Interface, pkg *types.Package) bool {
+	var mentions func(t types.Type, depth int) bool
+	mentions = func(t types.Type, depth int) bool {
+		if depth > 4 {
+			return false
+		}
+		switch x := t.(type) {
+		case *types.Named:
+			return x.Obj().Pkg() == pkg && !x.Obj().Exported()
+		case *types.Pointer:
+			return mentions(x.Elem(), depth+1)
+		case *types.Slice:
+			return mentions(x.Elem(), depth+1)
+		case *types.Tuple:
+			for i := 0; i < x.Len(); i++ {
+				if mentions(x.At(i).Type(), depth+1) {
+					return true
+				}
+			}
+		case *types.Signature:
+			return mentions(x.Params(), depth+1) || mentions(x.Results(), depth+1)
+		}
+		return false
+	}
+	for i := 0; i < it.NumMethods(); i++ {
+		m := it.Method(i)
+		if !m.Exported() || mentions(m.Type(), 0) {
+			return true
+		}
+	}
+	return false
 }
